@@ -209,6 +209,13 @@ class Formatter:
             return escape(json, self.quote_char, self.should_quote)
         if json == None:
             return "NULL"
+        if isinstance(json, float):
+            # KEEP A DECIMAL POINT SO THE TEXT PARSES BACK AS A FLOAT (repr GIVES 1e-05, 1e+16)
+            sql = text(json)
+            if "e" in sql and "." not in sql:
+                mantissa, exponent = sql.split("e")
+                sql = mantissa + ".0e" + exponent
+            return sql
 
         return text(json)
 
